@@ -49,13 +49,33 @@ def search(res, tier, seed, deep=False):
         #     goodness-of-fit decision or a clip that looks at raw magnitudes behaves differently there than at 273 K or 32 degF;
         # (b) the non-default ECDF estimate from a histogram (kernel_density): its bins must move with the unit
         near_zero = [("ISIMIP", "none", {}), ("ISIMIP", "days", {}), ("QuantileMapping", "none", {}), ("CDFt", "none", {}), ("ScaledDistributionMapping", "none", {})]
-        kd = [(n_, m_, dict(ecdf_method="kernel_density")) for n_, m_ in (("CDFt", "none"), ("QuantileDeltaMapping", "none"), ("ISIMIP", "none"), ("CDFt", "days"))]
-        if tier == "quick": near_zero = near_zero[:2] + [near_zero[2 + (seed + rnd) % 3]]; kd = [kd[(seed + rnd) % 4], kd[(seed + rnd + 1) % 4]]
-        for name, mode, over in near_zero + kd:
-            d = R.build(name, "tas", mode, r, **over)
+        #     (window-free only, and no sample of 2^k values: NumPy's bins="auto" takes ceil(range / width) with Sturges' width
+        #      range / (log2(n) + 1), which sits exactly on an integer when n is a power of two, so that rounding decides between
+        #      k + 1 and k + 2 bins — a discontinuity of the estimator, in any unit; window slices can have any size)
+        kd = [(n_, m_, dict(ecdf_method="kernel_density")) for n_, m_ in (("CDFt", "none"), ("QuantileDeltaMapping", "none"))]
+        if tier == "quick": near_zero = near_zero[:2] + [near_zero[2 + (seed + rnd) % 3]]
+        # (c) a nearly constant record (sea-ice freezing point, 271.35 K +- 3e-4 K): a "degenerate sample" test with a
+        #     tolerance relative to the absolute level sees it in kelvin and not in degC;  (d) the other unbounded ISIMIP
+        #     variables (rlds, psl) under maps that take part of the data below zero
+        special = [("ISIMIP", "none", dict(_data="const")), ("ISIMIP", "days", dict(_data="const")), ("QuantileMapping", "none", dict(_data="const")),
+                   ("ISIMIP", "none", dict(_var="rlds")), ("ISIMIP", "none", dict(_var="psl")), ("ISIMIP", "days", dict(_var="rlds"))]
+        if tier == "quick": special = [special[0], special[3], special[1 + (seed + rnd) % 2], special[4 + (seed + rnd) % 2]]
+        for name, mode, over in near_zero + kd + special:
+            data_kind = over.get("_data"); varname = over.get("_var", "tas"); over = {k: v for k, v in over.items() if not k.startswith("_")}
+            d = R.build(name, varname, mode, r, **over)
             rs = np.random.RandomState(r.randint(0, 10 ** 6))
             nO, nH, nF = r.randint(730, 800), r.randint(730, 800), r.randint(730, 1100)
-            if over:
+            if nF == 1024: nF = 1023      # (see the note on bins="auto" above)
+            maps = ((1.0, 273.15), (1.8, 32.0))
+            if data_kind == "const":
+                mkc = lambda n, sh: -1.8 + sh + 3e-4 * rs.standard_normal(n)
+                obs, hist, fut = mkc(nO, 0.0), mkc(nH, 2e-4), mkc(nF, 5e-4)
+            elif varname != "tas":
+                lvl, sd = (300.0, 40.0) if varname == "rlds" else (101000.0, 900.0)
+                mkr = lambda n, sh: lvl + sh * sd / 10 + sd * rs.standard_normal(n) + sd / 2 * np.sin(np.arange(n) * 2 * np.pi / 365.25)
+                obs, hist, fut = mkr(nO, 0.0), mkr(nH, 1.5), mkr(nF, 3.0)
+                maps = ((0.1, -30.0), (1.0, -lvl)) if varname == "rlds" else ((0.01, 0.0), (1.0, -101325.0))
+            elif over:
                 obs, hist, fut = R.series(rs, nO) - 273.15, R.series(rs, nH, "tas", 1.5, 1.3) - 273.15, R.series(rs, nF, "tas", 3.0, 1.1) - 273.15
             else:
                 mk = lambda n, sh, sc: sh + 0.4 * np.sin(np.arange(n) * 2 * np.pi / 365.25) + sc * (rs.gamma(2.0, 0.6, n) - 1.2)
@@ -65,13 +85,14 @@ def search(res, tier, seed, deep=False):
                 base = R.run(d, obs, hist, fut, tO, tH, tF)
             except Exception as e:
                 report("exception:" + name, dict(debiaser=name, window_mode=mode, settings=str(over), seed=seed), repr(e)[:300], "apply_location raised"); continue
-            for (a, b) in ((1.0, 273.15), (1.8, 32.0)):
+            for (a, b) in maps:
                 out = R.run(d, a * obs + b, a * hist + b, a * fut + b, tO, tH, tF)
                 want = a * base + b
                 err = float(np.max(np.abs(out - want))) / max(float(np.max(np.abs(want))), abs(a) * 10)
-                res.case(("c04-near-zero" if not over else "c04-kernel-density", name, mode, a))
+                label = "near-constant" if data_kind == "const" else varname if varname != "tas" else "kernel_density" if over else "near-zero"
+                res.case(("c04-" + label, name, mode, a))
                 if not (err <= 1e-7):
-                    report("not-unit-equivariant:%s:%s" % (name, "kernel_density" if over else "near-zero"), dict(debiaser=name, window_mode=mode, settings=str(over), base_unit="degC", a=a, b=b, seed=seed), err,
+                    report("not-unit-equivariant:%s:%s" % (name, label), dict(debiaser=name, variable=varname, window_mode=mode, settings=str(over), data=data_kind, a=a, b=b, seed=seed), err,
                            "expressing the three series in another unit does not change the output by the same map")
         for name in ("LinearScaling", "DeltaChange"):
             d = R.build(name, "pr", "none")
@@ -79,7 +100,7 @@ def search(res, tier, seed, deep=False):
             obs, hist, fut = R.series(rs, 500, "pr"), R.series(rs, 500, "pr", scale=1.4), R.series(rs, 600, "pr", scale=1.2)
             t = R.times(600, "1980-01-01")
             base = R.run(d, obs, hist, fut, t[:500], t[:500], t)
-            for a in (86400.0, 0.001):
+            for a in (86400.0, 0.001, 1e-5, 1e-7):      # (fluxes re-expressed in m s-1 and smaller: means far below 1e-8)
                 out = R.run(d, a * obs, a * hist, a * fut, t[:500], t[:500], t)
                 err = float(np.max(np.abs(out - a * base))) / max(1e-300, float(np.max(np.abs(a * base))))
                 res.case(("c04-mult", name, a))
